@@ -25,4 +25,100 @@ theorem vUserProps_ok (u : UserProps) : vUserProps u = .ok () ↔ Spec.upsOk u =
 theorem isValidTopic_iff (t : Bytes) : isValidTopic t = Spec.topicNameValid t := by
   simp [isValidTopic, Spec.topicNameValid, Spec.hasWildChar, Bool.and_assoc]
 
+/-! ### subscriptions that are never materialised (`padsubs=<n>x<len>`) -/
+
+theorem foldl_add_init {α} (f : α → Nat) (l : List α) (a : Nat) : l.foldl (fun acc x => acc + f x) a = a + l.foldl (fun acc x => acc + f x) 0 := by
+  induction l generalizing a with
+  | nil => simp
+  | cons x xs ih => simp only [List.foldl_cons]; rw [ih (a + f x), ih (0 + f x)]; omega
+
+theorem foldl_add_replicate {α} (f : α → Nat) (n : Nat) (x : α) : (List.replicate n x).foldl (fun acc y => acc + f y) 0 = n * f x := by
+  induction n with
+  | zero => simp
+  | succ k ih =>
+    simp only [List.replicate_succ, List.foldl_cons]
+    rw [foldl_add_init, ih]
+    rw [Nat.succ_mul]; omega
+
+theorem foldl_add_append {α} (f : α → Nat) (a b : List α) :
+    (a ++ b).foldl (fun acc x => acc + f x) 0 = a.foldl (fun acc x => acc + f x) 0 + b.foldl (fun acc x => acc + f x) 0 := by
+  rw [List.foldl_append, foldl_add_init]
+
+/-- the encoded lengths of a SUBSCRIBE with `n` more subscriptions whose filters have `len` bytes are those of the SUBSCRIBE
+    without them plus `n * (3 + len)` (what lets the correspondence check feed SUBSCRIBEs of 4 GiB and more as two numbers) -/
+theorem subscribeLengths5_pad (p : Subscribe) (n : Nat) (x : Subscription) :
+    subscribeLengths5 { p with subscriptions := p.subscriptions ++ List.replicate n x } =
+      (subscribeLengths5 p).map (fun l => (l.1 + n * (3 + x.topicFilter.length), l.2)) := by
+  unfold subscribeLengths5
+  simp only []
+  cases optVliPropLen p.subscriptionId with
+  | none => rfl
+  | some sid =>
+    simp only []
+    cases vliSize (userPropsLen p.userProps + sid) with
+    | none => rfl
+    | some sz =>
+      simp only [Option.map_some, Option.some.injEq, Prod.mk.injEq, and_true]
+      rw [foldl_add_append (fun (x : Subscription) => x.topicFilter.length), foldl_add_replicate (fun (x : Subscription) => x.topicFilter.length)]
+      simp only [List.length_append, List.length_replicate]
+      rw [Nat.add_mul, Nat.mul_add]
+      omega
+
+theorem unsubscribeLengths5_pad (p : Unsubscribe) (n : Nat) (f : Bytes) :
+    unsubscribeLengths5 { p with topicFilters := p.topicFilters ++ List.replicate n f } =
+      (unsubscribeLengths5 p).map (fun l => (l.1 + n * (2 + f.length), l.2)) := by
+  unfold unsubscribeLengths5
+  simp only []
+  cases vliSize (userPropsLen p.userProps) with
+  | none => rfl
+  | some sz =>
+    simp only [Option.map_some, Option.some.injEq, Prod.mk.injEq, and_true]
+    rw [foldl_add_append (fun (x : Bytes) => x.length), foldl_add_replicate (fun (x : Bytes) => x.length)]
+    simp only [List.length_append, List.length_replicate]
+    rw [Nat.add_mul, Nat.mul_add]
+    omega
+
+theorem subscribeLength311_pad (p : Subscribe) (n : Nat) (x : Subscription) :
+    subscribeLength311 { p with subscriptions := p.subscriptions ++ List.replicate n x } = subscribeLength311 p + n * (3 + x.topicFilter.length) := by
+  unfold subscribeLength311
+  simp only []
+  rw [foldl_add_append (fun (x : Subscription) => x.topicFilter.length), foldl_add_replicate (fun (x : Subscription) => x.topicFilter.length)]
+  simp only [List.length_append, List.length_replicate]
+  rw [Nat.add_mul, Nat.mul_add]
+  omega
+
+theorem unsubscribeLength311_pad (p : Unsubscribe) (n : Nat) (f : Bytes) :
+    unsubscribeLength311 { p with topicFilters := p.topicFilters ++ List.replicate n f } = unsubscribeLength311 p + n * (2 + f.length) := by
+  unfold unsubscribeLength311
+  simp only []
+  rw [foldl_add_append (fun (x : Bytes) => x.length), foldl_add_replicate (fun (x : Bytes) => x.length)]
+  simp only [List.length_append, List.length_replicate]
+  rw [Nat.add_mul, Nat.mul_add]
+  omega
+
+theorem all_append_replicate {α} (q : α → Bool) (l : List α) (n : Nat) (x : α) (hn : 0 < n) :
+    (l ++ List.replicate n x).all q = (l ++ [x]).all q := by
+  simp only [List.all_append, List.all_replicate, List.all_cons, List.all_nil, Bool.and_true]
+  have : n ≠ 0 := by omega
+  simp [this]
+
+/-- what the driver evaluates for a padded SUBSCRIBE is the validator on the padded packet -/
+theorem vSubscribeInternal_pad (p : Subscribe) (st : Settings) (n len : Nat) (hn : 0 < n) :
+    vSubscribeInternal { p with subscriptions := p.subscriptions ++ List.replicate n (padSub len) } (some st) =
+      vSubscribeInternalWith ((subscribeLengths5 p).map (fun l => (l.1 + n * (3 + len), l.2)))
+        { p with subscriptions := p.subscriptions ++ [padSub len] } (some st) := by
+  unfold vSubscribeInternal vSubscribeInternalWith
+  rw [subscribeLengths5_pad]
+  simp only [all_append_replicate _ _ n _ hn]
+  simp [padSub]
+
+theorem vUnsubscribeInternal_pad (p : Unsubscribe) (st : Settings) (n len : Nat) (hn : 0 < n) :
+    vUnsubscribeInternal { p with topicFilters := p.topicFilters ++ List.replicate n (List.replicate len 97) } (some st) =
+      vUnsubscribeInternalWith ((unsubscribeLengths5 p).map (fun l => (l.1 + n * (2 + len), l.2)))
+        { p with topicFilters := p.topicFilters ++ [List.replicate len 97] } (some st) := by
+  unfold vUnsubscribeInternal vUnsubscribeInternalWith
+  rw [unsubscribeLengths5_pad]
+  simp only [all_append_replicate _ _ n _ hn]
+  simp
+
 end GV
